@@ -265,12 +265,13 @@ def scenarios(tier):
     sc.append({"name": "refuse-arp-v6", "args": ["arp", "--json", "::1/120"], "maxMs": 6000, "expect": {"kind": "refuse", "scan": "arp", "target": target([0, 0, 0, 0], 0)}})
     # 11. Ctrl-C in the middle of a rate-limited scan, and during the exit delay
     sc.append({"name": "sigint-mid-scan", "args": ["arp", "--json", "--rate", "50/s", "10.9.3.0/26"], "sigintAfter": 5, "maxMs": 10000,
-               "expect": {"kind": "sigint", "scan": "arp", "target": target(net30, 26)}})
+               "expect": dict(packet_expect("arp", target(net30, 26), [[]], [64], 300, srcip=[10, 9, 0, 1], dstmac=[255] * 6), kind="packetsigint")})
     odd = list(range(3001, 15003, 2))          # 6001 single-port ranges: 31 passes
     sc.append({"name": "sigint-chunked", "args": ["tcp", "syn", "--json", "--rate", "200/s", "-p", ",".join(map(str, odd))] + COMMON + ["10.9.3.1"], "files": {"empty": ""}, "sigintAfter": 5, "maxMs": 12000,
-               "expect": {"kind": "sigint", "scan": "tcpsyn", "vpn": False, "target": target(a(1), 32, [rng(p, p) for p in odd])}})
+               "expect": dict(packet_expect("tcpsyn", target(a(1), 32, [rng(p, p) for p in odd]), [[rng(p, p) for p in odd[i:i + 200]] for i in range(0, len(odd), 200)],
+                                     [len(odd[i:i + 200]) for i in range(0, len(odd), 200)], 300), kind="packetsigint")})
     sc.append({"name": "sigint-in-exit-delay", "args": ["arp", "--json", "--exit-delay", "8s", "10.9.3.0/30"], "sigintAfter": 4, "maxMs": 10000,
-               "expect": {"kind": "sigint", "scan": "arp", "target": target(net30, 30)}})
+               "expect": dict(packet_expect("arp", target(net30, 30), [[]], [4], 8000, srcip=[10, 9, 0, 1], dstmac=[255] * 6), kind="packetsigint")})
     if tier == "thorough":
         sc.append({"name": "arp-big", "args": ["arp", "--json", "--exit-delay", "500ms", "10.9.0.0/20"],
                    "expect": packet_expect("arp", target([10, 9, 0, 0], 20), [[]], [4096], 500, srcip=[10, 9, 0, 1], dstmac=[255] * 6)})
@@ -459,6 +460,9 @@ def scanrun_events(e):
     evs = [{"ev": "Probe", "t": p["t"], "bytes": p["bytes"]} for p in e["probes"]] + \
           [{"ev": "Inject", "t": i["t"], "bytes": i["bytes"]} for i in e["injected"] if i["done"]]
     evs.sort(key=lambda v: (v["t"], v["ev"] == "Probe"))
+    if e["sigintT"] > 0:
+        evs.append({"ev": "Sigint", "t": e["sigintT"]})
+        evs.sort(key=lambda v: (v["t"], v["ev"] == "Probe"))
     return [{"ev": "Start", "t": 0, "name": e["name"], "expect": e["expect"]}] + evs + [{"ev": "Exit", "t": e["exitT"], "code": e["exit"], "records": e["records"]}]
 
 
@@ -468,7 +472,7 @@ def scanrun_validate(ctx, pid, label="scanrun"):
     runs = []
     for e in getattr(ctx, "wire_events", []):
         x = e["expect"]
-        if x["kind"] != "packet" or e.get("floodN") or e["panic"] or e["killed"] or e["drops"] or len(e["probes"]) > 600:
+        if x["kind"] not in ("packet", "packetsigint") or e.get("floodN") or e["panic"] or e["killed"] or e["drops"] or len(e["probes"]) > 600:
             continue
         keys = [(tuple(p["ip"]), p["port"]) for p in x["target"]["pairs"]]
         if len(keys) != len(set(keys)) or x["dstmacs"]:          # multiplicities / error-replaced probes are C01's and C11's business
